@@ -11,6 +11,16 @@ from pytrs.parser.config.master_config import MasterConfig
 import pytrs.parser.plssdesc.plssdesc as plssdesc_mod
 import pytrs.parser.tract.tract as tract_mod
 
+
+def safely(rep, what, f, *a):
+    """run one oracle check; an exception escaping the library is itself a failing input for the observables"""
+    try:
+        return f(rep, *a)
+    except Exception as e:  # noqa
+        rep.violation('failing-input', {'check': what, 'args': [str(x)[:300] for x in a], 'why': f'raised {type(e).__name__}: {e}'})
+        return None
+
+
 RULE = ("all single-setting assignments (16 settings: booleans in {unset, True, False}, directions, layouts, integer depths) "
         "x the three channels (config string at creation, assignment to .config before parsing, keyword to parse()) x "
         "PLSSDesc and Tract, on descriptions where the setting changes the outcome; pairs of conflicting sources; random "
@@ -239,7 +249,7 @@ def run(ctx):
         r = rng.fork(i)
         d = rand_cfg_dict(r)
         text = cfg_text(d, r)
-        check_roundtrip(rep, d, text)
+        safely(rep, 'config_roundtrip', check_roundtrip, d, text)
         rep.count()
         rep.nontrivial(text)
         rep.sample({'config_text': text}, cap=3)
